@@ -115,22 +115,77 @@ func outsIn(v any) types.LastAccOut {
 	return lo
 }
 
+// kept: a beta' window returned earlier, watched for later change (as harness/mmr does for peak lists)
+type kept struct {
+	live   types.BlocksHistory
+	full   string // rendering when it was returned
+	masked string // the same without the newest entry's state root (History2HistoryDagger of the NEXT block
+	// writes the parent state root there in place on the unchanged tree: informational, C26)
+}
+
+func render(h types.BlocksHistory, mask bool) string {
+	o := histOut(h)
+	if mask && len(o) > 0 {
+		o[len(o)-1].(map[string]any)["s"] = nil
+	}
+	return string(mustJSON(o))
+}
+
+func keep(h types.BlocksHistory) kept { return kept{live: h, full: render(h, false), masked: render(h, true)} }
+
+// oldChanged counts earlier results that differ now: any difference / a difference beyond the newest entry's state root
+func oldChanged(ks []kept) (anyDiff, structDiff int) {
+	for _, k := range ks {
+		if render(k.live, false) != k.full {
+			anyDiff++
+		}
+		if render(k.live, true) != k.masked {
+			structDiff++
+		}
+	}
+	return
+}
+
+// siblingOf derives a different block on the same parent: same parent state root and accumulation outputs
+// (so the specification's terms of the block apply), another header hash, another list of reported packages.
+func siblingOf(b map[string]any) map[string]any {
+	s := map[string]any{}
+	for k, v := range b {
+		s[k] = v
+	}
+	hh := append([]byte{}, vfd.Bytes(b["hh"])...)
+	hh[5] ^= 0x5a
+	s["hh"] = vfd.B(hh)
+	gs := b["gs"].([]any)
+	var sg []any
+	for i := len(gs) - 1; i >= 1; i-- { // reversed, first one dropped
+		sg = append(sg, gs[i])
+	}
+	ex := append([]byte{}, hh...)
+	ex[7] ^= 0x33
+	sg = append(sg, map[string]any{"hash": vfd.B(ex), "exports": b["proot"]})
+	s["gs"] = sg
+	return s
+}
+
 func TestRun(t *testing.T) {
 	cases := vfd.ReadCases(vfd.Env("VF_CASES", "cases.ndjson"))
 	out := vfd.NewOut(vfd.Env("VF_OUT", "trace.ndjson"))
 	defer out.Close()
-	for _, c := range cases {
+	for ci, c := range cases {
 		for _, api := range []string{"fn", "stf", "tv"} {
 			init := c["init"].(map[string]any)
 			hist := histIn(init["hist"])
 			belt := types.Mmr{Peaks: peaksIn(init["belt"])}
 			out.Emit(map[string]any{"ev": "Reset", "api": api, "hist": histOut(hist), "belt": peaksOut(belt.Peaks)})
 			var parent types.HeaderHash
-			for bi, raw := range c["blocks"].([]any) {
-				b := raw.(map[string]any)
-				rec := map[string]any{"ev": "Block", "api": api, "proot": b["proot"], "gs": b["gs"], "outs": b["outs"],
+			var keeps []kept
+			blocks := c["blocks"].([]any)
+			// one transition from the prior OBJECTS (hist, belt) as they are now; ev = "Block" | "Sibling"
+			exec := func(ev string, bi int, b map[string]any) (map[string]any, types.BlocksHistory, types.Mmr, types.HeaderHash, bool) {
+				rec := map[string]any{"ev": ev, "api": api, "proot": b["proot"], "gs": b["gs"], "outs": b["outs"],
 					"want_mroot": vfd.B(vfd.EvalTerm(b["want_mroot"])), "want_belt": termPeaksBytes(b["want_belt"]), "want_b": vfd.B(vfd.EvalTerm(b["want_b"])),
-					"hh": b["hh"], "panic": "", "err": "", "prior_mut": 0,
+					"hh": b["hh"], "panic": "", "err": "", "prior_mut": 0, "old_changed": 0, "old_struct": 0,
 					"got_dagger": []any{}, "got_ser": []any{}, "got_mroot": []int{}, "got_belt": []any{}, "got_b": []int{}, "got_p": []any{}, "got_hist": []any{}}
 				proot := types.StateRoot(h32(b["proot"]))
 				eg := guarantees(b["gs"])
@@ -138,8 +193,10 @@ func TestRun(t *testing.T) {
 				before := histOut(hist)
 				var next types.BlocksHistory
 				var nextBelt types.Mmr
+				newParent := parent
 				p, msg := vfd.Guard(func() {
-					if api == "fn" {
+					switch api {
+					case "fn":
 						dagger := History2HistoryDagger(hist, proot)
 						rec["got_dagger"] = histOut(dagger)
 						ser, err := serLastAccOut(lo)
@@ -163,9 +220,7 @@ func TestRun(t *testing.T) {
 						item := NewItem(types.HeaderHash(h32(b["hh"])), ps, commit)
 						next = AddItem2BetaHPrime(dagger, item)
 						rec["got_hist"] = histOut(next)
-						return
-					}
-					if api == "tv" {
+					case "tv":
 						// the test-vector variant: header hash is carried in Header.Parent, the commitment comes
 						// from the intermediate state, the belt is maintained outside (here: the specification's)
 						blockchain.ResetInstance()
@@ -184,33 +239,33 @@ func TestRun(t *testing.T) {
 						nextBelt = types.Mmr{Peaks: peaksIn(b["want_belt"])}
 						rec["got_belt"] = rec["want_belt"]
 						rec["got_hist"] = histOut(next)
-						return
+					default:
+						blockchain.ResetInstance()
+						cs := blockchain.GetInstance()
+						hdr := types.Header{Parent: parent, ParentStateRoot: proot, Slot: types.TimeSlot(bi + 1)}
+						copy(hdr.ExtrinsicHash[:], vfd.Bytes(b["hh"])) // makes every header distinct
+						enc, err := types.NewEncoder().Encode(&hdr)
+						if err != nil {
+							rec["err"] = "header encode: " + err.Error()
+							return
+						}
+						hh := blake2b.Sum256(enc)
+						rec["hh"] = vfd.B(hh[:])
+						newParent = types.HeaderHash(hh)
+						cs.AddBlock(types.Block{Header: hdr, Extrinsic: types.Extrinsic{Guarantees: eg}})
+						cs.GetPriorStates().SetBeta(types.RecentBlocks{History: hist, Mmr: belt})
+						cs.GetPosteriorStates().SetLastAccOut(lo)
+						STFBetaH2BetaHDagger()
+						rec["got_dagger"] = histOut(cs.GetIntermediateStates().GetBetaHDagger())
+						if err := STFBetaHDagger2BetaHPrime(); err != nil {
+							rec["err"] = err.Error()
+							return
+						}
+						post := cs.GetPosteriorStates().GetBeta()
+						next, nextBelt = post.History, post.Mmr
+						rec["got_belt"] = peaksOut(nextBelt.Peaks)
+						rec["got_hist"] = histOut(next)
 					}
-					blockchain.ResetInstance()
-					cs := blockchain.GetInstance()
-					hdr := types.Header{Parent: parent, ParentStateRoot: proot, Slot: types.TimeSlot(bi + 1)}
-					copy(hdr.ExtrinsicHash[:], vfd.Bytes(b["hh"])) // makes every header distinct
-					enc, err := types.NewEncoder().Encode(&hdr)
-					if err != nil {
-						rec["err"] = "header encode: " + err.Error()
-						return
-					}
-					hh := blake2b.Sum256(enc)
-					rec["hh"] = vfd.B(hh[:])
-					parent = types.HeaderHash(hh)
-					cs.AddBlock(types.Block{Header: hdr, Extrinsic: types.Extrinsic{Guarantees: eg}})
-					cs.GetPriorStates().SetBeta(types.RecentBlocks{History: hist, Mmr: belt})
-					cs.GetPosteriorStates().SetLastAccOut(lo)
-					STFBetaH2BetaHDagger()
-					rec["got_dagger"] = histOut(cs.GetIntermediateStates().GetBetaHDagger())
-					if err := STFBetaHDagger2BetaHPrime(); err != nil {
-						rec["err"] = err.Error()
-						return
-					}
-					post := cs.GetPosteriorStates().GetBeta()
-					next, nextBelt = post.History, post.Mmr
-					rec["got_belt"] = peaksOut(nextBelt.Peaks)
-					rec["got_hist"] = histOut(next)
 				})
 				if p {
 					rec["panic"] = msg
@@ -218,11 +273,39 @@ func TestRun(t *testing.T) {
 				if !sameHist(before, histOut(hist)) {
 					rec["prior_mut"] = 1
 				}
+				rec["old_changed"], rec["old_struct"] = oldChanged(keeps)
+				ok := !p && rec["err"] == ""
+				if ok {
+					keeps = append(keeps, keep(next))
+					if len(keeps) > 6 {
+						keeps = keeps[len(keeps)-6:]
+					}
+				}
+				return rec, next, nextBelt, newParent, ok
+			}
+			for bi, raw := range blocks {
+				b := raw.(map[string]any)
+				// logical prior: the VALUE the prior window has before the first transition from it
+				logical := histOut(hist)
+				rec, next, nextBelt, newParent, ok := exec("Block", bi, b)
 				out.Emit(rec)
-				if p || rec["err"] != "" {
+				if !ok {
 					break
 				}
-				hist, belt = next, nextBelt
+				// sibling probe: the SAME prior objects are used again for a different block on the same parent
+				// (same parent state root), then for the first block once more
+				probe := (len(blocks) <= 2 && bi == 0 && ci%5 == 0) || (len(blocks) > 2 && (bi == 0 || bi == 3 || bi == 12))
+				if probe {
+					for _, sb := range []map[string]any{siblingOf(b), b} {
+						r2, _, _, _, ok2 := exec("Sibling", bi, sb)
+						r2["prior"] = logical
+						out.Emit(r2)
+						if !ok2 {
+							break
+						}
+					}
+				}
+				hist, belt, parent = next, nextBelt, newParent
 			}
 		}
 	}
